@@ -6,6 +6,7 @@
 import AttrsModel.Proofs.InitWf
 import AttrsModel.Proofs.InitIR
 import AttrsModel.Proofs.C01Calls
+import AttrsModel.Proofs.SrcFuncs
 
 namespace Attrs.C01
 open Attrs.Init
@@ -414,5 +415,14 @@ theorem C01_script_spec_accepts_rewrite :
     swappedDeclsScript ≠ (Script.model threeFactories).script ∧
     Script.spec threeFactories { script := swappedDeclsScript } = true := by
   refine ⟨by decide +kernel, by decide +kernel⟩
+
+/-! ### T1b: the default alias as written in /repo's source on this run -/
+
+/-- **C01_source_default_alias**: `_default_init_alias_for`, translated from the current source
+    (`Gen.default_init_alias_for`, regenerated on every run), strips exactly the leading underscores of the field
+    name — the alias rule the parameter names of `C01_params` rest on (`C07.lstripUnderscore`) — for every name. -/
+theorem C01_source_default_alias (env : Py.Env) (ext : Py.Ext) (s : String) :
+    Gen.default_init_alias_for env ext (Py.vStr s) = .ok (Py.vStr (C07.lstripUnderscore s)) :=
+  Src.default_alias env ext s
 
 end Attrs.C01
